@@ -1,14 +1,31 @@
 package main
 
+import (
+	"encoding/json"
+	"fmt"
+	"math"
+	"os"
+	"regexp"
+	"runtime"
+	"sort"
+	"strconv"
+	"strings"
+	"sync"
+
+	"verifharness/vlib"
+)
+
+// ---------------------------------------------------------------------------
+// metric comparison
+
 type metricDiff struct {
 	total  int
 	byWhat map[string]int
 	first  map[string][2]metricRow
 }
 
-// diffMetrics compares two sorted row lists position-independently by
-// (location, what); a row missing on one side counts as a difference of its
-// "what".
+// diffMetrics compares two row lists sorted by (location, what); a row missing
+// on one side counts as a difference of its "what".
 func diffMetrics(a, b []metricRow) metricDiff {
 	d := metricDiff{byWhat: map[string]int{}, first: map[string][2]metricRow{}}
 	i, j := 0, 0
@@ -22,10 +39,10 @@ func diffMetrics(a, b []metricRow) metricDiff {
 	for i < len(a) || j < len(b) {
 		switch {
 		case j >= len(b) || (i < len(a) && a[i].key() < b[j].key()):
-			note(a[i].What, a[i], metricRow{})
+			note("row-set:"+a[i].What, a[i], metricRow{})
 			i++
 		case i >= len(a) || a[i].key() > b[j].key():
-			note(b[j].What, metricRow{}, b[j])
+			note("row-set:"+b[j].What, metricRow{}, b[j])
 			j++
 		default:
 			if a[i].Bits != b[j].Bits || a[i].Unit != b[j].Unit {
@@ -38,4 +55,636 @@ func diffMetrics(a, b []metricRow) metricDiff {
 	return d
 }
 
-func parentMain() {}
+// timeDerived: a metric whose value is computed from simulated time stamps.
+// The reporters give every such metric the unit "second" or "cycles/inst";
+// counts and sizes ("count", "bytes") are functional. Unknown units and
+// row-set differences are treated as functional (strict).
+func timeDerived(what string, rows [2]metricRow) bool {
+	if strings.HasPrefix(what, "row-set:") {
+		return false
+	}
+	u := rows[0].Unit
+	if u == "" {
+		u = rows[1].Unit
+	}
+	return u == "second" || u == "cycles/inst"
+}
+
+// ---------------------------------------------------------------------------
+// case generation: a pure function of (seed, tier)
+
+type caseRuns struct {
+	Case      caseDesc  `json:"case"`
+	Runs      []runDesc `json:"runs"`
+	Canonical bool      `json:"canonical,omitempty"`
+}
+
+var gomaxprocsPool = []int{1, 2, 4, 16}
+
+func hostCond(r *vlib.PRNG, idx int, perm []int) runDesc {
+	h := runDesc{GOMAXPROCS: gomaxprocsPool[perm[idx%len(perm)]]}
+	ncpu := runtime.NumCPU()
+	switch r.Intn(3) {
+	case 0: // not pinned
+	case 1:
+		h.CPUs = strconv.Itoa(r.Intn(ncpu))
+	case 2:
+		a := r.Intn(ncpu)
+		b := (a + 1 + r.Intn(ncpu-1)) % ncpu
+		h.CPUs = fmt.Sprintf("%d,%d", a, b)
+	}
+	if ncpu < 2 {
+		h.CPUs = ""
+	}
+	if r.Bool() {
+		h.GOGC = "10"
+	} else {
+		h.GOGC = "off"
+	}
+	return h
+}
+
+// makeRuns builds the K runs of a case: half under family A, half under B;
+// B's first run is the natural schedule (no injected delays), all others use
+// PRNG delays with a seed of their own; raceRuns of them use the -race build.
+func makeRuns(r *vlib.PRNG, k, raceRuns int) []runDesc {
+	perm := r.Perm(len(gomaxprocsPool))
+	runs := make([]runDesc, 0, k)
+	racePick := r.Perm(k)
+	isRace := map[int]bool{}
+	for i := 0; i < raceRuns && i < k; i++ {
+		isRace[racePick[i]] = true
+	}
+	for i := 0; i < k; i++ {
+		h := hostCond(r, i, perm)
+		if i < k/2 {
+			h.Family = "A"
+			h.Delays = true
+		} else {
+			h.Family = "B"
+			h.Delays = i != k/2
+		}
+		h.DelaySeed = r.Uint64()
+		h.Race = isRace[i]
+		runs = append(runs, h)
+	}
+	return runs
+}
+
+func pick(r *vlib.PRNG, xs ...int) int { return xs[r.Intn(len(xs))] }
+
+// shipped multi-kernel workloads at small, known-good sizes (acceptance sizes
+// or smaller), all on the gcn3 / r9nano timing platform.
+func shippedCase(r *vlib.PRNG, which int) (string, map[string]int) {
+	switch which % 14 {
+	case 0:
+		return "kmeans", map[string]int{"points": pick(r, 128, 256, 512), "features": pick(r, 8, 16, 32), "clusters": pick(r, 3, 5), "max_iter": pick(r, 3, 4, 5)}
+	case 1:
+		n := pick(r, 32, 64)
+		return "pagerank", map[string]int{"node": n, "connections": n * n / pick(r, 2, 4), "iterations": pick(r, 2, 3, 4)}
+	case 2:
+		return "stencil2d", map[string]int{"row": 64, "col": 64, "iter": pick(r, 2, 3, 5)}
+	case 3:
+		return "fir", map[string]int{"length": pick(r, 1024, 2048, 4096), "taps": 16}
+	case 4:
+		return "nw", map[string]int{"length": pick(r, 64, 128)}
+	case 5:
+		return "fft", map[string]int{"bytes": pick(r, 32768, 65536), "passes": pick(r, 2, 3)}
+	case 6:
+		return "bitonicsort", map[string]int{"length": pick(r, 128, 256, 512)}
+	case 7:
+		return "floydwarshall", map[string]int{"node": pick(r, 16, 32)}
+	case 8:
+		return "nbody", map[string]int{"particles": pick(r, 128, 256), "iter": pick(r, 2, 3, 4)}
+	case 9:
+		return "fastwalshtransform", map[string]int{"length": pick(r, 512, 1024, 2048)}
+	case 10:
+		return "atax", map[string]int{"x": pick(r, 64, 128), "y": pick(r, 64, 128)}
+	case 11:
+		return "bicg", map[string]int{"x": pick(r, 64, 128), "y": pick(r, 64, 128)}
+	case 12:
+		return "aes", map[string]int{"length": pick(r, 2048, 4096, 8192)}
+	default:
+		return "spmv", map[string]int{"dim": pick(r, 128, 256), "sparsity_permille": pick(r, 10, 20)}
+	}
+}
+
+// genCase fills one slot of a round.
+func genCase(r *vlib.PRNG, round, slot int) caseDesc {
+	c := caseDesc{Timing: true, GPUs: []int{1}, RandSeed: int64(1 + r.Intn(1000))}
+	switch slot {
+	case 0: // amd/tests/deterministic/empty_kernel, launched several times
+		c.Workload = "emptykernel"
+		c.Params = map[string]int{"launches": r.Range(10, 24), "num_wg": pick(r, 1, 4, 16, 64), "wf_per_wg": pick(r, 1, 2, 4)}
+		if r.Chance(1, 3) {
+			c.GPUs = []int{1, 2}
+		}
+	case 1: // amd/tests/deterministic/memcopy
+		c.Workload = "memcopy"
+		c.Params = map[string]int{"bytes": pick(r, 65536, 262144, 1048576)}
+		if r.Chance(1, 4) {
+			c.GPUs = []int{2}
+		}
+	case 2: // shipped multi-kernel workload, one GPU
+		c.Workload, c.Params = shippedCase(r, round*5+r.Intn(14))
+	case 3: // shipped multi-kernel workload on the two-GPU platform
+		c.Workload, c.Params = shippedCase(r, []int{0, 3, 2, 10, 11, 12, 1, 9}[(round+r.Intn(8))%8])
+		c.GPUs = []int{1, 2}
+	case 4: // generated chain of many tiny kernels
+		c.Workload = "tinykernels"
+		c.Params = map[string]int{"kernels": r.Range(24, 72), "elems": pick(r, 64, 128, 256, 512), "seed": r.Intn(1 << 20)}
+		if r.Bool() {
+			c.GPUs = []int{1, 2}
+		}
+	case 5: // mi300a (cdna3 code object)
+		c.Workload = "vectoradd"
+		c.GPUType, c.Arch = "mi300a", "cdna3"
+		c.Params = map[string]int{"width": pick(r, 2048, 4096, 8192), "height": 1}
+		if r.Chance(1, 3) {
+			c.GPUs, c.Unified = []int{1, 2}, true
+		}
+	}
+	ids := make([]string, len(c.GPUs))
+	for i, g := range c.GPUs {
+		ids[i] = strconv.Itoa(g)
+	}
+	ps := make([]string, 0, len(c.Params))
+	for k, v := range c.Params {
+		ps = append(ps, fmt.Sprintf("%s=%d", k, v))
+	}
+	sort.Strings(ps)
+	gt := "r9nano"
+	if c.GPUType != "" {
+		gt = c.GPUType
+	}
+	c.Name = fmt.Sprintf("r%d-s%d-%s[%s]-%s-gpus%s", round, slot, c.Workload, strings.Join(ps, ","), gt, strings.Join(ids, "+"))
+	if c.Unified {
+		c.Name += "-unified"
+	}
+	return c
+}
+
+// canonicalCases do not depend on the seed. The first one is the program of
+// the design-phase spike (200 x (4 KiB H2D, D2H) from one goroutine on the
+// default r9nano timing platform).
+func canonicalCases() []caseRuns {
+	c := caseDesc{Name: "canon-copyloop-200x4KiB-r9nano", Workload: "copyloop", Params: map[string]int{"n": 200, "bytes": 4096},
+		Timing: true, GPUs: []int{1}, RandSeed: 1}
+	runs := []runDesc{
+		{Family: "A", Delays: true, DelaySeed: 0xC05A1, GOMAXPROCS: 1, GOGC: "10"},
+		{Family: "A", Delays: true, DelaySeed: 0xC05A2, GOMAXPROCS: 16, GOGC: "off", CPUs: "0,1"},
+		{Family: "B", Delays: false, DelaySeed: 0, GOMAXPROCS: 1, GOGC: "100"},
+		{Family: "B", Delays: false, DelaySeed: 0, GOMAXPROCS: 16, GOGC: "100"},
+		{Family: "B", Delays: true, DelaySeed: 0xC05B1, GOMAXPROCS: 4, GOGC: "10"},
+		{Family: "B", Delays: true, DelaySeed: 0xC05B2, GOMAXPROCS: 2, GOGC: "off"},
+	}
+	if runtime.NumCPU() < 2 {
+		runs[1].CPUs = ""
+	}
+	return []caseRuns{{Case: c, Runs: runs, Canonical: true}}
+}
+
+func buildCases(c *vlib.Check) (cases []caseRuns, par []caseRuns) {
+	cases = canonicalCases()
+	base := c.Rand("cases")
+	rounds := c.N(1, 5)
+	k := c.N(4, 8)
+	race := c.N(1, 2)
+	for round := 0; round < rounds; round++ {
+		for slot := 0; slot < 6; slot++ {
+			r := base.ForkN(fmt.Sprintf("round%d", round), slot)
+			cd := genCase(r, round, slot)
+			cases = append(cases, caseRuns{Case: cd, Runs: makeRuns(r.Fork("runs"), k, race)})
+		}
+	}
+	// parallel engine: functional comparison (buffers only) against the serial
+	// runs of the same case; race-free workloads only
+	npar := c.N(2, 10)
+	cnt := 0
+	for i := 1; i < len(cases) && cnt < npar; i++ {
+		w := cases[i].Case.Workload
+		if w != "tinykernels" && w != "memcopy" && w != "vectoradd" && w != "fir" && w != "stencil2d" && w != "atax" && w != "bicg" &&
+			w != "aes" && w != "fastwalshtransform" && w != "nbody" && w != "emptykernel" {
+			continue
+		}
+		r := base.ForkN("parallel", i)
+		var runs []runDesc
+		for j := 0; j < 2; j++ {
+			runs = append(runs, runDesc{Family: "P", Parallel: true, Delays: j == 1, DelaySeed: r.Uint64(), GOMAXPROCS: []int{4, 16}[j], GOGC: "100"})
+		}
+		par = append(par, caseRuns{Case: cases[i].Case, Runs: runs})
+		cnt++
+	}
+	return cases, par
+}
+
+// ---------------------------------------------------------------------------
+// judging one case
+
+var reAddr = regexp.MustCompile(`0x[0-9a-f]+|\+0x[0-9a-f]+|:\d+|goroutine \d+|\d+`)
+
+func crashClass(fail string) string {
+	for _, l := range strings.Split(fail, "\n") {
+		if strings.Contains(l, "panic:") || strings.Contains(l, "fatal error:") || strings.Contains(l, "Panic:") {
+			s := reAddr.ReplaceAllString(strings.TrimSpace(l), "")
+			if len(s) > 100 {
+				s = s[:100]
+			}
+			return s
+		}
+	}
+	return "unknown"
+}
+
+func ftime(bits uint64) string { return strconv.FormatFloat(math.Float64frombits(bits), 'e', 9, 64) }
+
+type judge struct {
+	c  *vlib.Check
+	mu sync.Mutex
+	// per key: first witness only is kept by vlib; we add occurrence counts
+	handoffObserved map[string]int // by what differed
+	noraceReported  bool
+}
+
+func runSummary(rr runRecord) map[string]any {
+	return map[string]any{
+		"run": rr.Job.Run, "buf_digest": rr.Res.BufDigest,
+		"time_after_program": ftime(rr.Res.TimeRunBits), "time_after_dump": ftime(rr.Res.TimeDumpBits), "time_end": ftime(rr.Res.TimeEndBits),
+		"handoffs": rr.Res.Handoffs, "metric_rows": rr.NumRows, "quiescent": rr.Res.Quiescent,
+		"injections_into_running_engine": rr.Res.NonQuiescent, "engine_stalls": rr.Res.EngineStalls,
+	}
+}
+
+func (j *judge) witness(cr caseRuns, ref, other runRecord, extra map[string]any) map[string]any {
+	w := map[string]any{"case": cr.Case, "runs": cr.Runs, "canonical": cr.Canonical,
+		"reference_run": runSummary(ref), "differing_run": runSummary(other)}
+	for k, v := range extra {
+		w[k] = v
+	}
+	return w
+}
+
+func diffExamples(d metricDiff, max int) []map[string]any {
+	whats := make([]string, 0, len(d.first))
+	for w := range d.first {
+		whats = append(whats, w)
+	}
+	sort.Strings(whats)
+	var out []map[string]any
+	for _, w := range whats {
+		if len(out) >= max {
+			break
+		}
+		p := d.first[w]
+		out = append(out, map[string]any{"what": w, "rows_differing": d.byWhat[w],
+			"reference": fmt.Sprintf("%s %s = %v %s", p[0].Location, p[0].What, p[0].Value, p[0].Unit),
+			"other":     fmt.Sprintf("%s %s = %v %s", p[1].Location, p[1].What, p[1].Value, p[1].Unit)})
+	}
+	return out
+}
+
+func bufDiff(a, b childResult) string {
+	if len(a.Buffers) != len(b.Buffers) {
+		return fmt.Sprintf("%d live buffers vs %d", len(a.Buffers), len(b.Buffers))
+	}
+	for i := range a.Buffers {
+		if a.Buffers[i] != b.Buffers[i] {
+			return fmt.Sprintf("buffer %d: %+v vs %+v", i, a.Buffers[i], b.Buffers[i])
+		}
+	}
+	return "digest differs"
+}
+
+// judgeCase compares the records of one case. recs[i] belongs to cr.Runs[i].
+func (j *judge) judgeCase(cr caseRuns, recs []runRecord, serialRef *runRecord) {
+	c := j.c
+	c.Eval()
+	c.Count("cases", 1)
+	var ok []runRecord
+	crashed := 0
+	for _, rr := range recs {
+		c.Count("runs", 1)
+		switch {
+		case rr.OK:
+			ok = append(ok, rr)
+		case rr.Fail == "watchdog":
+			c.Inconclusive(fmt.Sprintf("case %s run %s: watchdog fired (no verdict)", cr.Case.Name, rr.Job.Run.hostKey()))
+		case strings.HasPrefix(rr.Fail, "norace:"):
+			j.mu.Lock()
+			if !j.noraceReported {
+				c.Inconclusive(rr.Fail)
+			}
+			j.noraceReported = true
+			j.mu.Unlock()
+		default:
+			crashed++
+		}
+	}
+	if crashed > 0 {
+		var crashRec runRecord
+		for _, rr := range recs {
+			if !rr.OK && rr.Fail != "watchdog" && !strings.HasPrefix(rr.Fail, "norace:") {
+				crashRec = rr
+				break
+			}
+		}
+		if len(ok) == 0 {
+			c.Inconclusive(fmt.Sprintf("case %s: every run ended without a record (%s); not a reproducibility verdict", cr.Case.Name, crashClass(crashRec.Fail)))
+		} else {
+			c.Violation("C05|outcome|some-runs-crash|"+crashClass(crashRec.Fail),
+				fmt.Sprintf("case %s: %d of %d runs of the same program ended without a result record while the others completed", cr.Case.Name, crashed, len(recs)),
+				map[string]any{"case": cr.Case, "runs": cr.Runs, "crashed_run": crashRec.Job.Run, "output_tail": crashRec.Fail})
+		}
+	}
+	if len(ok) == 0 {
+		return
+	}
+	for _, rr := range ok {
+		r := rr.Job.Run
+		c.Count("runs_completed", 1)
+		c.Count("runs_family_"+r.Family, 1)
+		if r.Race {
+			c.Count("runs_race_build", 1)
+		}
+		if r.CPUs != "" {
+			c.Count("runs_taskset_pinned", 1)
+		}
+		if r.Delays {
+			c.Count("runs_with_injected_delays", 1)
+			c.Distinct("delay_schedule", rr.Res.DelaySchedule)
+		}
+		c.Count("handoffs", rr.Res.Handoffs)
+		c.Count("yield_point_events", sumYields(rr.Res.Yields))
+		c.Count("holds_waited", rr.Res.HoldsWaited)
+		c.Count("engine_stalls_injected", rr.Res.EngineStalls)
+		c.Count("race_reports_seen", int64(rr.Races))
+		if r.Family == "B" {
+			c.Count("B_injections_into_running_engine", rr.Res.NonQuiescent)
+		}
+		if r.Family == "A" {
+			if rr.Res.Quiescent {
+				c.Count("A_runs_fully_quiescent", 1)
+			} else {
+				c.Count("A_runs_not_quiescent_not_judged_under_A", 1)
+			}
+		}
+		c.Count("buffers_hashed", int64(len(rr.Res.Buffers)))
+		c.Count("buffer_bytes_hashed", int64(rr.Res.BufBytes))
+		c.Distinct("host_condition", fmt.Sprintf("P%d|cpus=%s|gogc=%s|race=%v", r.GOMAXPROCS, r.CPUs, r.GOGC, r.Race))
+		c.Distinct("gomaxprocs", strconv.Itoa(r.GOMAXPROCS))
+		c.Distinct("workload", cr.Case.Workload)
+		c.Distinct("platform", fmt.Sprintf("%s|%s|gpus=%v|unified=%v", cr.Case.GPUType, cr.Case.Arch, cr.Case.GPUs, cr.Case.Unified))
+	}
+
+	// ---- parallel engine: buffers only ----
+	if cr.Runs[0].Family == "P" {
+		ref := ok[0]
+		if serialRef != nil {
+			ref = *serialRef
+		}
+		for _, rr := range ok {
+			if rr.Out.Dir == ref.Out.Dir {
+				continue
+			}
+			c.Count("parallel_engine_buffer_comparisons", 1)
+			if rr.Res.BufDigest != ref.Res.BufDigest {
+				c.Violation("C05|parallel|buffer",
+					fmt.Sprintf("case %s: final device memory of a parallel-engine run differs from the reference run: %s", cr.Case.Name, bufDiff(ref.Res, rr.Res)),
+					j.witness(cr, ref, rr, nil))
+			}
+		}
+		return
+	}
+
+	// ---- reference: the first fully quiescent family-A run ----
+	refIdx := -1
+	for i, rr := range ok {
+		if rr.Job.Run.Family == "A" && rr.Res.Quiescent {
+			refIdx = i
+			break
+		}
+	}
+	if refIdx < 0 {
+		c.Inconclusive(fmt.Sprintf("case %s: no fully quiescent family-A run to compare against", cr.Case.Name))
+		refIdx = 0
+	}
+	ref := ok[refIdx]
+	if len(ok) < 2 {
+		return
+	}
+	for i, rr := range ok {
+		// non-triviality of the (case, host condition) pair
+		if rr.Res.Handoffs >= 10 && rr.NumRows >= 100 {
+			c.Nontrivial(cr.Case.Name + "|" + rr.Job.Run.hostKey())
+		}
+		if i == refIdx {
+			continue
+		}
+		strict := rr.Job.Run.Family == "A" && rr.Res.Quiescent && ref.Res.Quiescent
+		d := diffMetrics(ref.Metrics, rr.Metrics)
+		c.Count("metric_rows_compared", int64(len(ref.Metrics)))
+		c.Count("run_pairs_compared", 1)
+		timeDiff := ref.Res.TimeRunBits != rr.Res.TimeRunBits || ref.Res.TimeDumpBits != rr.Res.TimeDumpBits || ref.Res.TimeEndBits != rr.Res.TimeEndBits
+		bufDiffers := ref.Res.BufDigest != rr.Res.BufDigest
+		fam := rr.Job.Run.Family
+		if strict {
+			c.Count("A_pairs_compared_bit_for_bit", 1)
+			if bufDiffers {
+				c.Violation("C05|A|buffer", fmt.Sprintf("case %s: final device memory differs between two quiescent-hand-off runs: %s", cr.Case.Name, bufDiff(ref.Res, rr.Res)),
+					j.witness(cr, ref, rr, nil))
+			}
+			if timeDiff {
+				c.Violation("C05|A|engine-time", fmt.Sprintf("case %s: Engine.CurrentTime() differs between two quiescent-hand-off runs (after program %s vs %s, after read-back %s vs %s, end %s vs %s)",
+					cr.Case.Name, ftime(ref.Res.TimeRunBits), ftime(rr.Res.TimeRunBits), ftime(ref.Res.TimeDumpBits), ftime(rr.Res.TimeDumpBits), ftime(ref.Res.TimeEndBits), ftime(rr.Res.TimeEndBits)),
+					j.witness(cr, ref, rr, nil))
+			}
+			whats := sortedKeys(d.byWhat)
+			for _, w := range whats {
+				c.Violation("C05|A|metric|"+w, fmt.Sprintf("case %s: %d rows of mgpusim_metrics '%s' differ between two quiescent-hand-off runs", cr.Case.Name, d.byWhat[w], w),
+					j.witness(cr, ref, rr, map[string]any{"examples": diffExamples(d, 8)}))
+			}
+			continue
+		}
+		// family B (or an A run whose holds expired): functional part must match
+		c.Count("B_pairs_compared_functionally", 1)
+		if bufDiffers {
+			c.Violation("C05|"+fam+"|buffer", fmt.Sprintf("case %s: final device memory differs between runs that differ only in host conditions: %s", cr.Case.Name, bufDiff(ref.Res, rr.Res)),
+				j.witness(cr, ref, rr, nil))
+		}
+		var timeWhats []string
+		for _, w := range sortedKeys(d.byWhat) {
+			if timeDerived(w, d.first[w]) {
+				timeWhats = append(timeWhats, w)
+				continue
+			}
+			c.Violation("C05|"+fam+"|functional-metric|"+w,
+				fmt.Sprintf("case %s: %d rows of the functional metric '%s' differ between runs that differ only in host conditions", cr.Case.Name, d.byWhat[w], w),
+				j.witness(cr, ref, rr, map[string]any{"examples": diffExamples(d, 8)}))
+		}
+		if timeDiff || len(timeWhats) > 0 {
+			c.Count("B_runs_with_time_derived_differences", 1)
+			j.mu.Lock()
+			if timeDiff {
+				j.handoffObserved["Engine.CurrentTime"]++
+			}
+			for _, w := range timeWhats {
+				j.handoffObserved[w] += d.byWhat[w]
+			}
+			j.mu.Unlock()
+			c.Violation("C05|handoff-window|time-derived-only",
+				fmt.Sprintf("case %s: simulated times depend on host scheduling: end time %s (quiescent hand-off) vs %s; time-derived metrics differing: %v", cr.Case.Name,
+					ftime(ref.Res.TimeEndBits), ftime(rr.Res.TimeEndBits), timeWhats),
+				j.witness(cr, ref, rr, map[string]any{"time_derived_metrics_differing": timeWhats, "examples": diffExamples(d, 6)}))
+		}
+	}
+}
+
+func sumYields(m map[string]int64) int64 {
+	var s int64
+	for _, v := range m {
+		s += v
+	}
+	return s
+}
+
+func sortedKeys(m map[string]int) []string {
+	ks := make([]string, 0, len(m))
+	for k := range m {
+		ks = append(ks, k)
+	}
+	sort.Strings(ks)
+	return ks
+}
+
+// ---------------------------------------------------------------------------
+
+func parentMain() {
+	// --replay <file>: re-execute exactly the case of a violation (read before
+	// vlib.Start, which deletes stale replays of the same tier and seed)
+	var replay *caseRuns
+	for i, a := range os.Args {
+		if a == "--replay" && i+1 < len(os.Args) {
+			data, err := os.ReadFile(os.Args[i+1])
+			if err != nil {
+				fmt.Printf("[C05] cannot read replay file: %v\n", err)
+				os.Exit(2)
+			}
+			var rp struct {
+				Witness caseRuns `json:"witness"`
+			}
+			if err := json.Unmarshal(data, &rp); err != nil || len(rp.Witness.Runs) == 0 {
+				fmt.Printf("[C05] replay file has no case/runs: %v\n", err)
+				os.Exit(2)
+			}
+			replay = &rp.Witness
+		}
+	}
+	c := vlib.Start("C05")
+	scratch, cleanup := vlib.Scratch("c05")
+	defer cleanup()
+	bins := newBinaries()
+
+	cases, par := buildCases(c)
+	if replay != nil {
+		cases, par = []caseRuns{*replay}, nil
+	}
+	if os.Getenv("C05_ONLY_CANONICAL") != "" {
+		cases, par = canonicalCases(), nil
+	}
+	needRace := false
+	for _, cr := range cases {
+		for _, r := range cr.Runs {
+			needRace = needRace || r.Race
+		}
+	}
+	if needRace {
+		go func() { _ = bins.ensureRace() }() // built while the plain runs execute
+	}
+
+	type jobRef struct{ ci, ri int }
+	all := append(append([]caseRuns{}, cases...), par...)
+	recs := make([][]runRecord, len(all))
+	var plainJobs, raceJobs []jobRef
+	for ci, cr := range all {
+		recs[ci] = make([]runRecord, len(cr.Runs))
+		for ri, r := range cr.Runs {
+			if r.Race {
+				raceJobs = append(raceJobs, jobRef{ci, ri})
+			} else {
+				plainJobs = append(plainJobs, jobRef{ci, ri})
+			}
+		}
+	}
+	// race-build runs are the slowest: start them first on a few workers of
+	// their own, the rest fills up with plain runs
+	jobs := append(raceJobs, plainJobs...)
+	workers := runtime.NumCPU() / 2
+	if workers < 2 {
+		workers = 2
+	}
+	if workers > 8 {
+		workers = 8
+	}
+	vlib.Parallel(len(jobs), workers, func(i int) {
+		jr := jobs[i]
+		recs[jr.ci][jr.ri] = execRun(bins, scratch, childJob{Case: all[jr.ci].Case, Run: all[jr.ci].Runs[jr.ri]})
+	})
+
+	j := &judge{c: c, handoffObserved: map[string]int{}}
+	serialRef := map[string]*runRecord{}
+	for ci, cr := range cases {
+		j.judgeCase(cr, recs[ci], nil)
+		for i := range recs[ci] {
+			rr := recs[ci][i]
+			if rr.OK && rr.Job.Run.Family == "A" && rr.Res.Quiescent && serialRef[cr.Case.Name] == nil {
+				serialRef[cr.Case.Name] = &recs[ci][i]
+			}
+		}
+	}
+	for pi, cr := range par {
+		j.judgeCase(cr, recs[len(cases)+pi], serialRef[cr.Case.Name])
+	}
+	// literal samples
+	for ci, cr := range cases {
+		if ci < 4 {
+			var rs []map[string]any
+			for _, rr := range recs[ci] {
+				if rr.OK {
+					rs = append(rs, runSummary(rr))
+				}
+			}
+			c.Sample(map[string]any{"case": cr.Case, "runs": rs})
+		}
+	}
+	c.Set("handoff_finding_observables_differing", j.handoffObserved)
+	c.Set("time_derived_rule", "a metric is time-derived iff its unit is 'second' or 'cycles/inst'; units 'count' and 'bytes' (and anything else, and the set of rows) are functional")
+
+	restricted := replay != nil || os.Getenv("C05_ONLY_CANONICAL") != ""
+	minNT := c.N(12, 100)
+	minC := map[string]int64{
+		"runs_completed": int64(c.N(20, 200)), "A_pairs_compared_bit_for_bit": int64(c.N(6, 80)), "B_pairs_compared_functionally": int64(c.N(8, 100)),
+		"metric_rows_compared": int64(c.N(5000, 100000)), "handoffs": int64(c.N(500, 5000)), "B_injections_into_running_engine": int64(c.N(20, 200)),
+		"runs_race_build": int64(c.N(3, 30)), "runs_taskset_pinned": int64(c.N(3, 30)), "parallel_engine_buffer_comparisons": int64(c.N(2, 10)),
+	}
+	if restricted { // a single case: only require that it was compared at all
+		minNT = 2
+		minC = map[string]int64{"runs_completed": 2, "run_pairs_compared": 1}
+	}
+	c.Finish(vlib.FinishOpts{
+		Rule: "case = (workload, inputs, platform configuration); every case runs K times in separate processes that differ only in host conditions " +
+			"(GOMAXPROCS, taskset pinning, GOGC, plain or -race build, PRNG delays at the driver's yield points and engine-thread stalls after completion notifications). " +
+			"Family A (quiescent hand-off, every command injected into an idle engine): buffers, engine times and every mgpusim_metrics row bit-identical; " +
+			"family B (adversarial hand-off): buffers, count/bytes metrics and the set of rows identical. " +
+			"distinct_nontrivial = distinct (case, host condition) pairs of completed runs with >= 10 application->engine hand-offs and >= 100 metric rows, compared against another run of the same case",
+		Assumptions: []string{
+			"one application goroutine per simulation (runner.Run with one benchmark); serial engine except in the parallel-engine comparison, where only buffers are compared",
+			"identical inputs: //go:debug randseednop=0 + rand.Seed(case seed) in every child; fresh process per run",
+			"only Engine.CurrentTime(), the rows (location, what, value, unit) of mgpusim_metrics and the live device buffers are compared; wall-clock fields, ids and exec_info are not",
+			"family A holds the application at 'drain.return' and runAsync at 'async.signal' until runAsync is back at its select and the engine goroutine has exited; a run whose hold expired is not judged under A",
+			"time-derived differences under family B are attributed to the hand-off finding; family A is what excludes other causes of time differences",
+			"the read-back of all live buffers (blocking D2H copies after the program's last command) is part of every run alike",
+		},
+		MinNontrivial: minNT,
+		MinCounters:   minC,
+	})
+}
